@@ -9,7 +9,6 @@ import (
 	"strings"
 	"sync"
 	"testing"
-	"testing/synctest"
 	"time"
 
 	"github.com/zishang520/engine.io-go-parser/packet"
@@ -69,7 +68,7 @@ func (w *sesWorld) hook(point string, args ...any) {
 
 func (w *sesWorld) settle() {
 	for {
-		synctest.Wait()
+		idle()
 		w.parkMu.Lock()
 		if len(w.parked) == 0 {
 			w.parkMu.Unlock()
@@ -219,6 +218,7 @@ func sesRun(t *testing.T, lines []string) []string {
 				}
 				w = &sesWorld{world: newWorld(t, opts, nil), reacts: map[string][]string{}, jOf: map[string]string{},
 					armed: map[string]int{}, winParked: map[string][]chan struct{}{}}
+				curSes = w
 				utils.SetVerifHook(w.hook)
 				w.srv.On("connection", func(a ...any) {
 					s := a[0].(engine.Socket)
@@ -273,6 +273,8 @@ func sesRun(t *testing.T, lines []string) []string {
 				}
 				if f[2] == "polling" {
 					w.request("GET", "/engine.io/?"+q, nil, nil, false, false)
+				} else if f[2] == "webtransport" {
+					w.wtDial("0")
 				} else {
 					w.wsDial("/engine.io/?"+q, nil, false)
 				}
@@ -314,9 +316,15 @@ func sesRun(t *testing.T, lines []string) []string {
 					q += "&sid=" + sess(f[2]).Id()
 				}
 				w.wsDial("/engine.io/?"+q, nil, false)
+			case "wt": // ses wt <s|->: a WebTransport session, new (-) or an upgrade candidate naming a session
+				first := "0"
+				if f[2] != "-" {
+					first = `0{"sid":"` + sess(f[2]).Id() + `"}`
+				}
+				w.wtDial(first)
 			case "frame": // ses frame <c> <t|b> <hex>
 				c := w.conns[atoi(f[2])]
-				if c.conn != nil {
+				if c.conn != nil || c.wtConn != nil {
 					if err := c.send(f[3], unhx(f[4])); err != nil {
 						note = "" // a failed client write is the client's business
 					}
@@ -428,7 +436,7 @@ func sesRun(t *testing.T, lines []string) []string {
 				}
 				c.mu.Lock()
 				cl := c.closed
-				if c.conn == nil && cl == "" {
+				if c.conn == nil && c.wtConn == nil && cl == "" {
 					cl = fmt.Sprintf("refused:%d", c.status)
 				}
 				c.mu.Unlock()
